@@ -291,7 +291,10 @@ where
                 }
             }
             JSXElementName::JSXMemberExpr(expr) => jsx_member_expr_to_expr(expr),
-            JSXElementName::JSXNamespacedName(name) => Expr::JSXNamespacedName(name.clone()),
+            JSXElementName::JSXNamespacedName(name) => Expr::Lit(Lit::Str(quote_str!(format!(
+                "{}:{}",
+                name.ns.sym, name.name.sym
+            )))),
         }
     }
 
@@ -1015,6 +1018,9 @@ where
 
         if matches!(element_name, JSXElementName::JSXMemberExpr(..)) {
             should_transformed_to_slots
+        } else if matches!(element_name, JSXElementName::JSXNamespacedName(..)) {
+            // `<ns:tag>` is lowered to the string tag "ns:tag"
+            false
         } else {
             self.options
                 .custom_element_patterns
